@@ -95,19 +95,29 @@ def runSteps (W : World) (s : Sys) (steps : List Step) : Sys := steps.foldl (ste
 /-! ### sync mode: one unit at a time, `latest` is overwritten by each commit -/
 
 structure SyncSys where
-  ns   : NS
-  last : Int          -- ghost: the last unit whose transaction the target applied
+  ns      : NS
+  cur     : Int              -- bisyncSeq of the running process: number of the last unit it sent
+  applied : List Int := []   -- ghost: the units whose transaction the target applied, in order
 
 inductive SyncStep
   | commitNext (mtime : Int)    -- Dispatch + Receive of the next unit (sendBisyncSync)
-  | restart                     -- crash + start: reads `latest`, writes nothing
+  | restart                     -- crash + start: StartPoint reads `latest` and sets bisyncSeq
 
 def syncStep (W : World) (s : SyncSys) : SyncStep → SyncSys
   | .commitNext mt =>
-    { ns := applyReq s.ns (.commitLatest (unitRec W (s.last + 1) mt)), last := s.last + 1 }
-  | .restart => s
+    { ns := applyReq s.ns (.commitLatest (unitRec W (s.cur + 1) mt)), cur := s.cur + 1,
+      applied := s.applied ++ [s.cur + 1] }
+  | .restart =>
+    match startLatest s.ns W.ids with
+    | .point _ _ _ seq => { s with cur := seq }
+    | _ => s
 
 def syncRun (W : World) (s : SyncSys) (steps : List SyncStep) : SyncSys := steps.foldl (syncStep W) s
+
+/-- 1, 2, …, n -/
+def upTo : Nat → List Int
+  | 0 => []
+  | n + 1 => upTo n ++ [((n + 1 : Nat) : Int)]
 
 /-! ### stop / start cycles with no traffic -/
 
